@@ -292,12 +292,20 @@ theorem group_nofault (w : World) (new : Content) :
   exact ⟨h1, by simp [defaultWriter, cutBudget], (group_spec w new [] none (Or.inr (by simp))).2.1 h1⟩
 
 /-- the bytecode cache entry after a write group: the one before, unless the code drops it -/
-theorem afterGroup_pyc {w : World} {g : GroupOut} {x : Nat × Nat × Content}
-    (h : (afterGroup w g).pyc = some x) : dropsBytecode = false ∧ w.pyc = some x := by
+theorem afterGroup_pyc' {w : World} {g : GroupOut} {x : Nat × Nat × Content}
+    (h : (afterGroup w g).pyc = some x) :
+    (if g.viaHook then dropsBytecodeHook else dropsBytecode) = false ∧ w.pyc = some x := by
   simp only [afterGroup] at h
-  cases hd : dropsBytecode with
+  cases hd : (if g.viaHook then dropsBytecodeHook else dropsBytecode) with
   | true => rw [hd] at h; simp at h
   | false => rw [hd] at h; exact ⟨rfl, by simpa using h⟩
+
+/-- after the built-in writer -/
+theorem afterGroup_pyc {w : World} {g : GroupOut} {x : Nat × Nat × Content} (hv : g.viaHook = false)
+    (h : (afterGroup w g).pyc = some x) : dropsBytecode = false ∧ w.pyc = some x := by
+  have := afterGroup_pyc' h
+  rw [hv] at this
+  simpa using this
 
 /-- case A: the staleness test fires -/
 theorem construct_due (w : World) (p : Plan) (hp : p.noFault) (hfresh : dropsBytecode = true ∨ PycFresh w p)
@@ -311,7 +319,7 @@ theorem construct_due (w : World) (p : Plan) (hp : p.noFault) (hfresh : dropsByt
     ⟨newContent w p.size1, w.clock⟩ (by simpa [afterGroup] using gm) (by simp [newContent])
     (by
       intro m s c hpyc hm hs
-      obtain ⟨hnd, hpyc⟩ := afterGroup_pyc hpyc
+      obtain ⟨hnd, hpyc⟩ := afterGroup_pyc rfl hpyc
       rcases hfresh with hfix | hfresh
       · rw [hfix] at hnd; cases hnd
       · exact absurd ⟨hm, Or.inl hs⟩ (hfresh.1 m s c hpyc))
@@ -356,7 +364,7 @@ theorem construct_magic (w : World) (p : Plan) (hp : p.noFault) (hgood : Good w.
     ⟨newContent w p.size2, w.clock⟩ (by simpa [afterGroup, newContent] using gm) (by simp [newContent])
     (by
       intro m s c hpyc hm' hs
-      obtain ⟨hnd, hpyc'⟩ := afterGroup_pyc hpyc
+      obtain ⟨hnd, hpyc'⟩ := afterGroup_pyc rfl hpyc
       have hpyc' : pyc1 = some (m, s, c) := hpyc'
       have hfresh : PycFresh w p := by
         rcases hfresh with hfix | hfresh
